@@ -258,6 +258,29 @@ def nontrivial(ops):
     return sum(1 for o in ops if o[0] == "Eq") >= 2 and sum(1 for o in ops if o[0] == "NewRecord") >= 2
 
 
+def fixed_programs():
+    """documents whose records hold several values under one formal attribute (a membership built with the collection
+    given as a QualifiedName, which switches the single-value guard off): equal up to the order of the members,
+    and different in one member only — whichever member the set iterates first"""
+    EXU = "http://example.org/"
+    PROVU = "http://www.w3.org/ns/prov#"
+
+    def member_doc(i, ents, extra=None):
+        attrs = [[["Q", "prov", PROVU, "collection"], ["str", "ex:c"]]] + [[["Q", "prov", PROVU, "entity"], ["str", "ex:" + e]] for e in ents]
+        if extra:
+            attrs.append(extra)
+        return [["NewDoc"], ["AddNs", ["d", str(i)], "ex", EXU], ["NewRecord", ["d", str(i)], "Membership", ["S", "ex:m"], attrs]]
+    out = []
+    p = member_doc(0, ["e1", "e2"]) + member_doc(1, ["e2", "e1"]) + member_doc(2, ["e1", "e3"]) + member_doc(3, ["e3", "e2"]) + \
+        member_doc(4, ["e1", "e2", "e3"]) + member_doc(5, ["e1", "e2"], [["S", "ex:k"], ["int", "1"]])
+    for a in range(6):
+        for b in range(6):
+            if a != b:
+                p.append(["Eq", ["d", str(a)], ["d", str(b)]])
+    out.append(p)
+    return out
+
+
 def run(tier, seed, log, model_runs=True, enlarged=False):
     return worldprop.run(PROP, tier, seed, log, model_runs, enlarged, C04Oracle, ["mixed", "merge", "records"],
                          n_quick=160, n_thorough=3000, post=post, nontrivial=nontrivial,
@@ -272,6 +295,7 @@ def run(tier, seed, log, model_runs=True, enlarged=False):
                                    "state predates later mutations); at the end all pairs/triples of documents, bundles and sampled records are "
                                    "checked: reflexive, symmetric, transitive, != , hash, and == iff library-level content equal; "
                                    "non-trivial = >=2 Eq calls on documents with >=2 records",
+                         extra_cases=fixed_programs(),
                          theorem_note="C04_* over Record.rec_eqb / World.bundle_eqb / doc_eqb")
 
 
